@@ -298,6 +298,13 @@ class Atomizer(object):
         self.ev = ev_param
         self.ws_cls = self.prog.cls("conducting.WorkflowState")
 
+    def is_boolean(self, node, interp):
+        """The expression is one of the recognised state predicates (always True / False)."""
+        try:
+            return self(node, interp)[0] != "opaque"
+        except AnalysisError:
+            return False
+
     def __call__(self, x, interp):
         if isinstance(x, Sym) and x.kind == "filter":
             var, body, src = x.data
@@ -340,11 +347,19 @@ class Atomizer(object):
             l, r = node.left, node.comparators[0]
             if (isinstance(l, ast.Attribute) and isinstance(l.value, ast.Name)
                     and l.value.id == self.ws and l.attr == "status"
-                    and isinstance(node.ops[0], ast.Eq)):
+                    and isinstance(node.ops[0], (ast.Eq, ast.NotEq, ast.In, ast.NotIn))):
                 try:
-                    return ("wf_status_eq", self.prog.fold(r, self.f.module))
+                    rv = self.prog.fold(r, self.f.module)
                 except NotFoldable:
-                    pass
+                    rv = None
+                op = node.ops[0]
+                if isinstance(op, (ast.Eq, ast.NotEq)) and isinstance(rv, str):
+                    atom = ("wf_status_eq", rv)
+                    return atom if isinstance(op, ast.Eq) else ("not", atom)
+                if isinstance(op, (ast.In, ast.NotIn)) and isinstance(rv, (list, tuple, set, frozenset)) \
+                        and all(isinstance(x, str) for x in rv):
+                    atom = ("any", [("wf_status_eq", x) for x in sorted(rv)])
+                    return atom if isinstance(op, ast.In) else ("not", atom)
             if (isinstance(l, ast.Constant) and l.value == "items"
                     and isinstance(node.ops[0], ast.In)):
                 return ("staged_has_items",)
@@ -381,7 +396,7 @@ class Atomizer(object):
                 return allst - frozenset([rhs])
         return None
 
-    def _ws_property(self, attr):
+    def _ws_property(self, attr, depth=0):
         fi = self.prog.lookup_method(self.ws_cls, attr)
         if fi is None or not fi.is_property:
             return ("opaque", "workflow_state.%s" % attr)
@@ -389,6 +404,10 @@ class Atomizer(object):
         if len(rets) != 1 or rets[0].value is None:
             return ("opaque", "workflow_state.%s" % attr)
         v = subst_locals(fi.node, rets[0].value)
+        # a predicate composed of other predicates of the state:  not (self.a or self.b)
+        comp = self._ws_composed(v, attr, depth)
+        if comp is not None:
+            return comp
         # len(X) > 0   |  bool(X)  |  X
         inner = None
         if (isinstance(v, ast.Compare) and len(v.ops) == 1 and isinstance(v.ops[0], ast.Gt)
@@ -413,6 +432,26 @@ class Atomizer(object):
             if m == "get_staged_tasks" and not inner.args and not inner.keywords:
                 return ("staged_ready",)
         return ("opaque", "workflow_state.%s" % attr)
+
+    def _ws_composed(self, v, attr, depth):
+        if depth > 4:
+            return None
+        if isinstance(v, ast.UnaryOp) and isinstance(v.op, ast.Not):
+            inner = self._ws_composed(v.operand, attr, depth + 1)
+            return None if inner is None else ("not", inner)
+        if isinstance(v, ast.BoolOp):
+            parts = [self._ws_composed(x, attr, depth + 1) for x in v.values]
+            if any(p is None for p in parts):
+                return None
+            return ("any" if isinstance(v.op, ast.Or) else "all", parts)
+        if isinstance(v, ast.Attribute) and isinstance(v.value, ast.Name) and v.value.id == "self" \
+                and v.attr != attr:
+            sub = self._ws_property(v.attr, depth + 1)
+            return None if sub[0] == "opaque" else sub
+        if isinstance(v, ast.Call) and isinstance(v.func, ast.Name) and v.func.id == "bool" \
+                and len(v.args) == 1:
+            return self._ws_composed(v.args[0], attr, depth + 1)
+        return None
 
     def _ws_delegate(self, meth):
         """WorkflowState.has_next_tasks / has_barrier_next must delegate to the conductor."""
